@@ -1,1 +1,2 @@
-
+import Facts.Types
+import Facts.Generated
